@@ -39,16 +39,19 @@ Definition pcase_ok (R : rules) (sites : list site) (c : pcase) : bool :=
 
 Definition pmismatches (R : rules) (sites : list site) (l : list pcase) : list nat := bad_indices (pcase_ok R sites) l.
 
-(* feature probe: did the real compiler reject with MinecraftVersionTooLow/TooHigh ? *)
-Record fcase := mkF { f_feature : feature; f_pf : Z; f_in_table : bool; f_rejected : bool }.
-(* rejected iff a regenerated gate raises; on the formats of JMC's table an accepted feature must be expressible *)
-Definition fcase_ok (gs : list gate) (c : fcase) : bool :=
-  Bool.eqb (f_rejected c) (negb (accepts gs (f_feature c) (f_pf c)))
-  && ((f_pf c =? UNVERSIONED) || negb (f_in_table c) || f_rejected c || expressible (f_feature c) (f_pf c)).
-Definition fmismatches (gs : list gate) (l : list fcase) : list nat := bad_indices (fcase_ok gs) l.
-(* when the gate table could not be regenerated: only "accepted on a table format => expressible" *)
+(* feature probe: outcome of the real compiler: 0 = compiled, 1 = MinecraftVersionTooLow/TooHigh, 2 = another JMC diagnostic *)
+Record fcase := mkF { f_feature : feature; f_pf : Z; f_in_table : bool; f_outcome : nat }.
+Definition expected_outcome (gs : list gate) (sgs : list sgate) (c : fcase) : nat :=
+  if negb (accepts gs (f_feature c) (f_pf c)) then 1
+  else if negb (strategy_ok sgs (f_feature c) (f_pf c)) then 2 else 0.
+(* the outcome is the one the regenerated gates predict; on the formats of JMC's table a feature that compiles must be expressible *)
+Definition fcase_ok (gs : list gate) (sgs : list sgate) (c : fcase) : bool :=
+  Nat.eqb (f_outcome c) (expected_outcome gs sgs c)
+  && ((f_pf c =? UNVERSIONED) || negb (f_in_table c) || negb (Nat.eqb (f_outcome c) 0) || expressible (f_feature c) (f_pf c)).
+Definition fmismatches (gs : list gate) (sgs : list sgate) (l : list fcase) : list nat := bad_indices (fcase_ok gs sgs) l.
+(* when the gate table could not be regenerated: only "compiles on a table format => expressible" *)
 Definition fcase_ok_nogates (c : fcase) : bool :=
-  (f_pf c =? UNVERSIONED) || negb (f_in_table c) || f_rejected c || expressible (f_feature c) (f_pf c).
+  (f_pf c =? UNVERSIONED) || negb (f_in_table c) || negb (Nat.eqb (f_outcome c) 0) || expressible (f_feature c) (f_pf c).
 Definition fmismatches_nogates (l : list fcase) : list nat := bad_indices fcase_ok_nogates l.
 
 (* direct call of PackVersion(pf).require(f, is_lower): 0 = returned, 1 = TooLow, 2 = TooHigh *)
